@@ -16,6 +16,124 @@ import numbers
 import numpy
 
 
+# ---- concolic fall-back -------------------------------------------------------------------------------------------------
+# Pure mode (VALUATION is None): a token cannot be inspected - whatever is shown holds for every value (parametricity).
+# When the code under contract *does* inspect a value (`if phi < pi`, `x or default`, float(x)), the obligation cannot be decided
+# parametrically.  Instead of reporting the TypeError of the token as a failure (it is not one), the shard is re-run with the
+# tokens carrying concrete values (VALUATION = one of VALUATIONS): comparisons then evaluate to real booleans, execution follows
+# the path of that valuation, and the contracts are still compared by term identity along it.  That is BOUNDED (one path per
+# valuation) and is labelled so; a failure found this way comes with the concrete valuation, i.e. a real input.
+VALUATION = None
+INSPECTIONS = 0
+VALUATIONS = ("small", "large", "negative-large", "assigned-zero")
+INSPECT_MSG = "symbolic value inspected"
+
+
+def _leaf_value(name):
+    import hashlib
+    h = int(hashlib.sha1(name.encode()).hexdigest()[:8], 16) / 0xFFFFFFFF       # deterministic in [0, 1]
+    if name == "pi":
+        return math.pi
+    if VALUATION == "small":
+        return 0.15 + 0.7 * h
+    if VALUATION == "large":
+        return 4.0 + 5.0 * h
+    if VALUATION == "negative-large":
+        return -(4.0 + 5.0 * h)
+    # "assigned-zero": the values handed to setters / scalar parameters are exactly zero, stored coordinates are small
+    if name.startswith(("new", "k", "s", "ang", "a1", "a2", "a3")):
+        return 0.0
+    return 0.15 + 0.7 * h
+
+
+def teval(t):
+    """concrete value of a term under the current VALUATION (numpy semantics for the library functions)"""
+    global INSPECTIONS
+    INSPECTIONS += 1
+    return _teval(t)
+
+
+def _teval(t):
+    if not isinstance(t, T):
+        return t
+    if not t.args:
+        return _leaf_value(t.op)
+    kw = {}
+    pos = []
+    for a in t.args:
+        if isinstance(a, T) and not a.args and "=" in a.op:
+            k_, v_ = a.op.split("=", 1)
+            try:
+                kw[k_] = eval(v_, {"inf": math.inf, "nan": math.nan})
+            except Exception:
+                kw[k_] = None
+        else:
+            pos.append(_teval(a))
+    ops = {"add": lambda a, b: a + b, "sub": lambda a, b: a - b, "mul": lambda a, b: a * b, "truediv": lambda a, b: a / b, "pow": lambda a, b: a ** b,
+           "mod": lambda a, b: a % b, "neg": lambda a: -a, "abs": abs, "eq": lambda a, b: a == b, "ne": lambda a, b: a != b, "lt": lambda a, b: a < b,
+           "gt": lambda a, b: a > b, "le": lambda a, b: a <= b, "ge": lambda a, b: a >= b, "and": lambda a, b: a & b, "or": lambda a, b: a | b}
+    try:
+        with numpy.errstate(all="ignore"):
+            if t.op in ops:
+                return ops[t.op](*pos)
+            return getattr(numpy, t.op)(*pos, **kw)
+    except Exception as e:
+        raise TypeError(f"{INSPECT_MSG} (no concrete value under valuation {VALUATION}: {type(e).__name__})")
+
+
+def inspected(bad_item):
+    return INSPECT_MSG in str(bad_item)
+
+
+def _concolic_worker(job):
+    """run one shard in pure mode; if the code under contract inspected a token, re-run it under each concrete valuation (bounded)"""
+    global VALUATION
+    modname, fname, args = job
+    fn = getattr(importlib.import_module(modname), fname)
+    VALUATION = None
+    crashed = None
+    try:
+        res = fn(args)
+    except TypeError as e:
+        if INSPECT_MSG not in str(e):
+            raise
+        crashed, res = str(e), None
+    if res is not None and not any(inspected(b) for b in res[1]):
+        return res + (0,) if isinstance(res, tuple) else res
+    keep = [] if res is None else [b for b in res[1] if not inspected(b)]
+    seen = {b[0] for b in keep}
+    n = 0 if res is None else res[0]
+    last = res
+    for val in VALUATIONS:
+        VALUATION = val
+        try:
+            r2 = fn(args)
+        except TypeError as e:
+            if INSPECT_MSG not in str(e):
+                VALUATION = None
+                raise
+            keep.append((f"concolic/undecided/{modname}.{fname}{args!r}", f"not evaluable under valuation {val}: {e}"))
+            continue
+        finally:
+            VALUATION = None
+        last = r2
+        n = max(n, r2[0])
+        for b in r2[1]:
+            if b[0] not in seen and not inspected(b):
+                seen.add(b[0])
+                keep.append((b[0], dict(detail=b[1], concolic_valuation=val, note="the code under contract inspects a value: evaluated along the path of this concrete valuation (bounded)")))
+    if last is None:
+        raise TypeError(crashed)
+    out = (n, keep) + tuple(last[2:])
+    return out + (len(VALUATIONS),)
+
+
+def concolic_map(shard_fn, jobs):
+    """pool_map(shard_fn, jobs) with the concolic fall-back; every result gets a trailing count of concrete re-runs (0 = decided parametrically)"""
+    from . import common as C
+    return C.pool_map(_concolic_worker, [(shard_fn.__module__, shard_fn.__name__, j) for j in jobs])
+
+
 class T:
     """opaque symbolic term"""
     __slots__ = ("op", "args", "_r")
@@ -37,10 +155,14 @@ class T:
     __hash__ = object.__hash__
 
     def __bool__(self):
-        raise TypeError("symbolic value inspected (used as bool): " + repr(self))
+        if VALUATION is None:
+            raise TypeError("symbolic value inspected (used as bool): " + repr(self))
+        return bool(teval(self))
 
     def __float__(self):
-        raise TypeError("symbolic value inspected (converted to float)")
+        if VALUATION is None:
+            raise TypeError("symbolic value inspected (converted to float)")
+        return float(teval(self))
 
     def __neg__(self):
         return T("neg", self)
